@@ -176,3 +176,14 @@ Fixpoint rs_bisect (fuel : nat) (name : Z -> bytes) (sha : bytes) (start end_ : 
 Definition rs_bisect_top (fuel : nat) name sha s e : bres :=
   if negb ((zlen sha =? 20) || (zlen sha =? 32)) then BErr
   else if s >? e then BErr else rs_bisect fuel name sha s e.
+
+(* ---------- _count_blocks ---------- *)
+(* blocks end after a line feed or when they reach 64 bytes; cur is the block
+   being filled (reversed), n its length *)
+Fixpoint split_blocks (l : bytes) (cur : bytes) (n : Z) : list bytes :=
+  match l with
+  | [] => match cur with [] => [] | _ => [rev cur] end
+  | c :: r => if (c =? 10) || (n + 1 =? 64) then rev (c :: cur) :: split_blocks r [] 0
+              else split_blocks r (c :: cur) (n + 1)
+  end.
+Definition count_blocks (data : bytes) : list bytes := split_blocks data [] 0.
